@@ -10,13 +10,16 @@ from ropt.results import FunctionResults, Results
 def _get_new_optimal_result(
     optimal_result: FunctionResults | None, results: FunctionResults
 ) -> FunctionResults | None:
+    # Both arguments are results in the domain that the optimizer minimizes.
+    assert results.functions is not None
+    objective = results.functions.weighted_objective
+    if np.isnan(objective):
+        return None
     if optimal_result is None:
         return results
     assert optimal_result.functions is not None
-    assert results.functions is not None
     optimal = optimal_result.functions.weighted_objective
-    objective = results.functions.weighted_objective
-    if objective < optimal:
+    if np.isnan(optimal) or objective < optimal:
         return results
     return None
 
@@ -62,12 +65,15 @@ def _get_last_result(
 
 
 def _update_optimal_result(
-    optimal_result: FunctionResults | None,
+    optimal_transformed_result: FunctionResults | None,
     results: tuple[Results, ...],
     transformed_results: tuple[Results, ...],
     constraint_tolerance: float | None,
-) -> FunctionResults | None:
-    return_result: FunctionResults | None = None
+) -> tuple[FunctionResults, FunctionResults] | None:
+    # The comparison is done on the transformed results, i.e. in the domain that
+    # the optimizer minimizes. Returns the new optimal result, together with its
+    # transformed version, or None if there is no better result.
+    return_result: tuple[FunctionResults, FunctionResults] | None = None
     for item, transformed_item in zip(results, transformed_results, strict=False):
         if (
             isinstance(transformed_item, FunctionResults)
@@ -75,8 +81,10 @@ def _update_optimal_result(
             and not _violates_constraint(transformed_item, constraint_tolerance)
         ):
             assert isinstance(item, FunctionResults)
-            new_optimal_result = _get_new_optimal_result(optimal_result, item)
+            new_optimal_result = _get_new_optimal_result(
+                optimal_transformed_result, transformed_item
+            )
             if new_optimal_result is not None:
-                optimal_result = new_optimal_result
-                return_result = new_optimal_result
+                optimal_transformed_result = new_optimal_result
+                return_result = (item, new_optimal_result)
     return return_result
